@@ -216,8 +216,103 @@ def filesib(run, fx):
         run.violated('FILESIB', 'm_pFileFace users', '', 'the library distinguishes file faces from callback faces in %s' % sorted(users - allowed))
 
 
+def opssize(run, fx):
+    """gr_face_ops is a versioned struct: the client says in ops.size how much of it it filled in.  The face keeps its own copy,
+    zeroed first and then filled with at most min(sizeof m_ops, ops.size) bytes; nothing else writes m_ops.  (A plain struct
+    assignment reads release_table from beyond a short client struct: a callback face built from the short form then behaves
+    unlike the file face of the same font.)"""
+    fld = 'graphite2::Face::m_ops'
+    writers = []
+    for fn in fx.all_fns():
+        for _, e in fn.elements():
+            tgt = None
+            if e['k'] in ('BinaryOperator', 'CompoundAssignOperator') and e['op'].endswith('=') and e['op'] not in ('==', '!=', '<=', '>='):
+                tgt = e['c'][0]
+            elif e['k'] == 'CXXOperatorCallExpr' and (e.get('fq') or '').endswith('::operator=') and e.get('args'):
+                tgt = e['args'][0]
+            elif e['k'] == 'Init' and e.get('field') == fld and not e.get('implicit'):
+                writers.append((fn, e, 'initialiser'))
+            elif e['k'] in ('CallExpr',) and (e.get('fq') or '') in ('memcpy', 'memmove', 'memset') and e.get('args'):
+                d = fn.strip_all_casts(e['args'][0])
+                if d['k'] == 'UnaryOperator' and d.get('op') == '&':
+                    d = fn.strip_all_casts(d['c'][0])
+                if d['k'] == 'MemberExpr' and d.get('d') == fld:
+                    writers.append((fn, e, e['fq']))
+            if tgt is not None:
+                for x in fn.walk(tgt):
+                    if x['k'] == 'MemberExpr' and x.get('d') == fld:
+                        writers.append((fn, e, 'assignment'))
+                        break
+    ok_cpy = ok_set = None
+    bad = None
+    for fn, e, kind in writers:
+        if kind == 'memset' and fn.q == 'graphite2::Face::Face' and fn.strip_all_casts(e['args'][1]).get('v') == 0:
+            ok_set = (fn, e)
+        elif kind in ('memcpy', 'memmove') and fn.q == 'graphite2::Face::Face':
+            sz = fn.deref(e['args'][2])
+            inner = [fn.strip_all_casts(a) for a in (sz.get('args') or [])] if sz['k'] == 'CallExpr' and (sz.get('fq') or '').split('<')[0].endswith('::min') else []
+            has_size = any(a['k'] == 'MemberExpr' and a.get('d', '').endswith('gr_face_ops::size') for a in inner)
+            has_sizeof = any(a.get('v') is not None for a in inner)
+            if has_size and has_sizeof:
+                ok_cpy = (fn, e)
+            else:
+                bad = bad or (fn, e, 'copies `%s` bytes, not min(sizeof m_ops, ops.size)' % fn.render(e['args'][2]))
+        else:
+            bad = bad or (fn, e, 'is a whole-struct %s' % kind)
+    if bad:
+        fn, e, why = bad
+        run.violated('OPTFLOW', 'face ops copy', fn.loc(e), '%s writes the face\'s table callbacks and %s: members the client did not provide (ops.size says how many it did) are '
+                     'read from whatever follows its struct, so release_table of a callback face is garbage where the file face has a real one' % (fn.q, why))
+    elif ok_cpy and ok_set and ok_set[0].pos_of[ok_set[1]['i']] < ok_cpy[0].pos_of[ok_cpy[1]['i']] and ok_set[0].block_of[ok_set[1]['i']] == ok_cpy[0].block_of[ok_cpy[1]['i']]:
+        run.held('OPTFLOW', 'face ops copy', ok_cpy[0].loc(ok_cpy[1]), 'zeroed, then min(sizeof m_ops, ops.size) bytes copied; no other writer')
+    elif ok_cpy and ok_set and ok_set[0].block_of[ok_set[1]['i']] in ok_cpy[0].dominators()[ok_cpy[0].block_of[ok_cpy[1]['i']]]:
+        run.held('OPTFLOW', 'face ops copy', ok_cpy[0].loc(ok_cpy[1]), 'zeroed, then min(sizeof m_ops, ops.size) bytes copied; no other writer')
+    elif ok_cpy:
+        run.violated('OPTFLOW', 'face ops copy', ok_cpy[0].loc(ok_cpy[1]), 'Face::Face no longer zeroes m_ops before the size-limited copy: members beyond ops.size are indeterminate')
+    else:
+        run.broken('OPTFLOW', 'face ops copy', 'no writer of Face::m_ops found', '')
+
+
+def boxparity(run, fx):
+    """whether a glyph gets a GlyphBox is decided per font in the preload path (any glyph has sub-boxes -> every glyph gets one); the
+    lazy loader therefore must not make it depend on what the loader reported for this one glyph (values it received through
+    out-parameters of read_glyph)"""
+    fn = fx.one('graphite2::GlyphCache::glyph')
+    outs = {}
+    for e in calls_in(fn, 'graphite2::GlyphCache::Loader::read_glyph'):
+        for a in e.get('args') or []:
+            x = fn.strip_all_casts(a)
+            if x['k'] == 'UnaryOperator' and x.get('op') == '&':
+                y = fn.strip_all_casts(x['c'][0])
+                if y['k'] == 'DeclRefExpr' and y.get('vid') is not None:
+                    outs[y['vid']] = y.get('n') or fn.render(y)
+    stores = []
+    for _, e in fn.elements():
+        if e['k'] == 'BinaryOperator' and e['op'] == '=':
+            l = fn.deref(e['c'][0])         # through a reference local bound to the cell
+            if l['k'] == 'ArraySubscriptExpr' and fn.strip_all_casts(l['c'][0]).get('d') == 'graphite2::GlyphCache::_boxes' and not fn.is_null(e['c'][1]):
+                stores.append(e)
+    if not outs or not stores:
+        run.broken('LOADERSIB', 'lazy box condition', 'read_glyph out-parameters (%d) / _boxes[...] fill (%d) not found in GlyphCache::glyph' % (len(outs), len(stores)), fn.where())
+        return
+    for e in stores:
+        dep = None
+        for cond, pol in dom.edge_guards(fn, fn.block_of[e['i']]):
+            for x in fn.walk(cond):
+                if x['k'] == 'DeclRefExpr' and x.get('vid') in outs:
+                    dep = (outs[x['vid']], fn.render(fn.strip(cond)))
+        if dep:
+            run.violated('LOADERSIB', 'lazy box condition', fn.loc(e), 'the lazy loader creates the GlyphBox of a glyph only under `%s`, which depends on `%s`, a value the loader '
+                         'reported for this one glyph; the preload path gives every glyph a box once any glyph of the font has sub-boxes -- the same glyph has a box (slant, '
+                         'bounding slant box) on a preloaded face and none on a lazy one, and collision avoidance positions it differently' % (dep[1], dep[0]))
+        else:
+            run.held('LOADERSIB', 'lazy box condition', fn.loc(e), 'box creation does not depend on per-glyph loader output (%s)' % sorted(outs.values()))
+
+
 def run(run):
     fx = run.facts('Q0')
+    opssize(run, fx)
+    boxparity(run, fx)
     optflow(run, fx)
     optentry(run, fx)
     loadersib(run, fx)
